@@ -214,6 +214,6 @@ def run(cx: Cx):
 
     from .common import include_premises
     include_premises(cx, ['C08'], 'placing an agent outside a spatial world must fail: the placement test is C08\'s',
-                     only=lambda o: o.function.endswith('SpaceWorld.add_agent') or o.function.endswith('SpaceWorld.remove_agent'))
+                     only=lambda o: o.function.endswith('.add_agent') or o.function.endswith('.remove_agent'))
     include_premises(cx, ['C03'], 'a present agent can always be removed and the listings follow: join/leave bookkeeping is C03\'s',
                      only=lambda o: o.function.endswith('.add_agent') or o.function.endswith('.remove_agent'))
